@@ -22,8 +22,9 @@ VARIABLES cse,      \* case being consumed
           oi,       \* out of the case being consumed
           ci,       \* next chunk of that out
           texts,    \* distinct texts of this case with their verdicts: <<[x, j]>>
-          res       \* per consumed out: [g, as, e, ti] (ti indexes texts)
-tvars == <<tree, opt, prog, buf, flushed, done, cse, oi, ci, texts, res>>
+          res,      \* per consumed out: [g, as, e, ti] (ti indexes texts)
+          cnt       \* <<real calls consumed, distinct texts judged>> (published with TLCSet at the end of each case)
+tvars == <<tree, opt, prog, buf, flushed, done, cse, oi, ci, texts, res, cnt>>
 
 Case == TraceLog[cse]
 Out  == Case.outs[oi]
@@ -41,14 +42,14 @@ Expand(e) == CASE e.t = "wrap" -> WrapFrom(e, Len(e.wk), Expand(e.inner))
                [] OTHER -> e
 TreeOf(n) == IF n <= N THEN Expand(TraceLog[n].tree) ELSE 0
 
-TraceInit == /\ cse = 1 /\ oi = 1 /\ ci = 1 /\ texts = <<>> /\ res = <<>>
+TraceInit == /\ cse = 1 /\ oi = 1 /\ ci = 1 /\ texts = <<>> /\ res = <<>> /\ cnt = <<0, 0>>
              /\ tree = TreeOf(1) /\ opt = 0 /\ prog = <<>> /\ buf = <<>> /\ flushed = <<>> /\ done = FALSE
              /\ TLCSet(1, <<>>) /\ TLCSet(2, 0) /\ TLCSet(3, 0) /\ TLCSet(4, 0) /\ TLCSet(5, 0)
 
 \* the io.Writer receives one chunk: JsonWriter!Flush as seen from outside (buf is not observable; it was the chunk)
 TFlush == /\ cse <= N /\ oi <= Len(Case.outs) /\ ci <= Len(Out.ch)
           /\ flushed' = flushed \o Out.ch[ci] /\ ci' = ci + 1
-          /\ UNCHANGED <<tree, opt, prog, buf, done, cse, oi, texts, res>>
+          /\ UNCHANGED <<tree, opt, prog, buf, done, cse, oi, texts, res, cnt>>
 
 \* the call has returned: JsonWriter!Done; the text is judged once per distinct text of the case
 TDone == /\ cse <= N /\ oi <= Len(Case.outs) /\ ci > Len(Out.ch)
@@ -56,8 +57,7 @@ TDone == /\ cse <= N /\ oi <= Len(Case.outs) /\ ci > Len(Out.ch)
                 ti == IF known = {} THEN Len(texts) + 1 ELSE Min(known)
             IN /\ texts' = IF known = {} THEN Append(texts, [x |-> flushed, j |-> Judge(flushed, tree, TOpt)]) ELSE texts
                /\ res' = Append(res, [g |-> Out.g, as |-> Out.as, e |-> Out.e, ti |-> ti])
-               /\ (known # {} \/ TLCSet(5, TLCGet(5) + 1))
-         /\ TLCSet(4, TLCGet(4) + Len(Out.as))
+               /\ cnt' = <<cnt[1] + Len(Out.as), cnt[2] + (IF known = {} THEN 1 ELSE 0)>>
          /\ flushed' = <<>> /\ oi' = oi + 1 /\ ci' = 1
          /\ UNCHANGED <<tree, opt, prog, buf, done, cse>>
 
@@ -91,9 +91,9 @@ TEnd == /\ cse <= N /\ oi > Len(Case.outs)
         /\ LET j == CaseBad IN
            /\ (j = <<>> \/ Len(TLCGet(1)) >= MaxBad \/ TLCSet(1, TLCGet(1) \o j))
            /\ (j = <<>> \/ TLCSet(3, TLCGet(3) + Len(j)))
-        /\ TLCSet(2, cse)
+        /\ TLCSet(2, cse) /\ TLCSet(4, cnt[1]) /\ TLCSet(5, cnt[2])
         /\ cse' = cse + 1 /\ oi' = 1 /\ ci' = 1 /\ texts' = <<>> /\ res' = <<>> /\ tree' = TreeOf(cse + 1)
-        /\ UNCHANGED <<opt, prog, buf, flushed, done>>
+        /\ UNCHANGED <<opt, prog, buf, flushed, done, cnt>>
 
 TraceNext == TFlush \/ TDone \/ TEnd
 TraceSpec == TraceInit /\ [][TraceNext]_tvars
